@@ -30,7 +30,9 @@ type WeightedMerkleTrie struct {
 	oldRoot     hashNode
 	deleted     map[[32]byte]bool
 	tempDeleted [][]byte
-	created     [][]byte
+	// number of leading tempDeleted entries that were superseded by a committed state
+	tempDeletedCommitted int
+	created              [][]byte
 	sync.Mutex
 }
 
@@ -327,6 +329,7 @@ func (t *WeightedMerkleTrie) Rollback() {
 		t.created = nil
 	}
 	t.tempDeleted = nil
+	t.tempDeletedCommitted = 0
 	clear(t.deleted)
 }
 
@@ -346,12 +349,16 @@ func (t *WeightedMerkleTrie) DeleteNodes() error {
 		}
 	}
 	clear(t.deleted)
-	for _, key := range t.tempDeleted {
+	// only nodes replaced by a committed state may be scheduled for deletion: the
+	// nodes replaced by changes that are not committed yet still belong to the
+	// last committed root
+	for _, key := range t.tempDeleted[:t.tempDeletedCommitted] {
 		var k [32]byte
 		copy(k[:], key)
 		t.deleted[k] = true
 	}
-	t.tempDeleted = nil
+	t.tempDeleted = t.tempDeleted[t.tempDeletedCommitted:]
+	t.tempDeletedCommitted = 0
 	return nil
 }
 
@@ -418,6 +425,7 @@ func (t *WeightedMerkleTrie) Commit(collapseLevel int) (storage.Batcher, error) 
 		close(deleteChan)
 		close(createdChan)
 		wg.Wait()
+		t.tempDeletedCommitted = len(t.tempDeleted)
 	}()
 	t.collectDeleteAndCreated(deleteChan, createdChan, wg)
 	if ok {
